@@ -218,6 +218,9 @@ func (r *runner) instantiate(s Step) string {
 		}
 		r.compiled[s.Spec] = cm
 	}
+	if p.typeErr {
+		return fmt.Sprintf("CompileModule(%s) accepted a module whose element segment item reads an imported global of another type than the table's element type (constant expressions must have the element type)", spec.Name)
+	}
 	if p.compileReject {
 		r.res.labels["inst:spec-invalid-const-expr-accepted"]++
 	}
